@@ -39,7 +39,8 @@ def run(chk):
     rule_confine(chk)
     if bp:
         rule_arms(chk, bp)
-    rule_peel(chk)
+    if not rule_bindings_eval(chk):
+        rule_peel(chk)
     import c05
     # shared table agreement
     tabs = {}
@@ -253,6 +254,114 @@ def rule_arms(chk, bp):
             same = len({v[1].get(fld) for v in vals}) == 1
             chk.ob("C18.tables/arms/stage.%s" % fld, same, "stage.%s built the same way for all targets" % fld if same else
                    "CompiledPipelineStage.%s differs per target: %s" % (fld, {k: v[1].get(fld) for k, v in arms.items()}), where(bp))
+
+
+def rule_bindings_eval(chk):
+    """analyse_bindings of both exporters read as a table: each is evaluated by the finite-map reader on one-resource
+    modules (every ObjectType x {plain, const, array, const array of const, unbounded array} x bindless flag; the name
+    maps are stand-ins that return a name tagged with the target, since each target has its own reserved words). What is
+    registered must not depend on the target: same name (so: the source name, not a name-map name), descriptor kind,
+    count, bindless flag and slot."""
+    import interp as I
+    import bindmodel as BM
+    f = chk.facts
+    abs_ = {"hlsl": f.fn("analyse_bindings", "rssl_hlsl"), "msl": f.fn("analyse_bindings", "rssl_msl")}
+    ot = f.adt("ObjectType", "rssl_ir")
+    if not all(abs_.values()) or not ot:
+        return False
+    bm = BM.BindModel(f)
+    objs = {}
+    for v in ot["variants"]:
+        nf = len(v.get("fields") or [])
+        objs[v["name"]] = bm._add(I.Enum("TypeLayer", "Object", {"0": I.Enum("ObjectType", v["name"], {str(i): BM.tid(999) for i in range(nf)})}), ("object", v["name"]))
+    objs["<scalar>"] = bm.scalar()
+    shapes = {"plain": lambda t: t, "const": lambda t: bm.mod(t), "array[4]": lambda t: bm.array(t, 4), "const array[3] of const": lambda t: bm.mod(bm.array(bm.mod(t), 3)),
+              "unbounded array": lambda t: bm.array(t, None), "const unbounded array": lambda t: bm.mod(bm.array(t, None))}
+    opt = BM.opt
+
+    def run(tgt, name, t, bindless):
+        got = []
+        ext = dict(bm.externs())
+        ext["register_binding"] = lambda a: got.append((a[1], a[2])) or ()
+        for k in ("get_name_leaf", "get_name_qualified", "get_name_full"):
+            ext[k] = lambda a: "<%s name map>(%s)" % (tgt, name)
+        ip = I.Interp(f, max_depth=8, extern=ext)
+        ip.max_loop = 64
+        g = I.Enum("GlobalVariable", None, {
+            "name": I.Enum("Located", None, {"node": name, "location": I.Opaque("loc")}), "type_id": BM.tid(t),
+            "api_slot": opt(I.Enum("ApiBinding", None, {"set": 2, "location": I.Enum("ApiLocation", "Index", {"0": 5}), "slot_type": opt(None)})),
+            "lang_slot": I.Opaque("lang slot"), "is_bindless": bindless, "static_sampler": opt(None), "is_intrinsic": False, "storage_class": I.Enum("GlobalStorage", "Extern")})
+        mod = I.Enum("Module", None, {"global_registry": [g], "cbuffer_registry": [], "type_registry": I.Opaque("type registry")})
+        # (the second argument is the module for one exporter and a context holding it for the other: the stand-in is both)
+        ctx = I.Enum("GenerateContext", None, dict(mod.fields, module=mod, name_map=I.Opaque("name map")))
+        decl = I.Enum("RootDefinition", "GlobalVariable", {"0": I.Enum("GlobalId", None, {"0": 0})})
+        ab = abs_[tgt]
+        nparams = len(ab.get("params") or []) or (2 if tgt == "hlsl" else 3)
+        try:
+            r = ip.apply(ab, [decl, ctx] + [I.Opaque("binding layout")] * (nparams - 2))
+        except I.Unknown as e:
+            return ("aborts" if "panicking" in str(e) else "unreadable", str(e)[:100])
+        if isinstance(r, I.Enum) and r.variant == "Err":
+            return ("Err",)
+        if len(got) != 1:
+            return ("none",) if not got else ("unreadable", "%d bindings registered" % len(got))
+        grp, b = got[0]
+        b = b.get() if isinstance(b, I.Ref) else b
+        if not isinstance(b, I.Enum):
+            return ("unreadable", repr(b)[:60])
+
+        def flat(v):
+            if isinstance(v, I.Enum):
+                return (v.variant,) + tuple(flat(x) for _, x in sorted(v.fields.items()))
+            return v
+        return ("Ok", {"group": grp, "name": b.fields.get("name"), "slot": flat(b.fields.get("api_binding")), "kind": flat(b.fields.get("descriptor_type")),
+                       "count": flat(b.fields.get("descriptor_count")), "bindless": b.fields.get("is_bindless")})
+    bad_name = {"hlsl": None, "msl": None}
+    bad_kind, bad_count, bad_other = {}, {}, None
+    n = 0
+    for oname, base in sorted(objs.items()):
+        for sname, mk in shapes.items():
+            for bindless in (False, True):
+                if bindless and sname not in ("unbounded array", "plain"):
+                    continue
+                t = mk(base)
+                res = {tgt: run(tgt, "res", t, bindless) for tgt in abs_}
+                for tgt, r in res.items():
+                    if r[0] == "unreadable":
+                        chk.note("C18.bindings: %s analyse_bindings is not readable on %s %s (%s): the shape rules decide" % (tgt, sname, oname, r[1]))
+                        return False
+                n += 1
+                h, m = res["hlsl"], res["msl"]
+                what = "%s %s%s" % (sname, oname, " (bindless)" if bindless else "")
+                for tgt, r in res.items():
+                    if r[0] == "aborts":
+                        bad_other = bad_other or "%s analyse_bindings aborts on a %s resource (%s)" % (tgt, what, r[1])
+                    if r[0] == "Ok" and r[1]["name"] != "res" and not bad_name[tgt]:
+                        bad_name[tgt] = "a %s resource declared as `res` is reported by %s under %r: a name that went through that target's name map, whose reserved words differ from the other targets'" % (what, tgt, r[1]["name"])
+                if h[0] != m[0]:
+                    if not (h[0] == "Ok" and m[0] == "Err" or h[0] == "Err" and m[0] == "Ok"):    # one target not supporting an object type is not a disagreement of the reflection
+                        bad_kind.setdefault(oname, "%s: HLSL %s, MSL %s" % (what, h[0], m[0]))
+                    continue
+                if h[0] != "Ok":
+                    continue
+                if h[1]["kind"] != m[1]["kind"]:
+                    bad_kind.setdefault(oname, "a %s resource is described as %s by HLSL and as %s by MSL" % (what, h[1]["kind"], m[1]["kind"]))
+                if h[1]["count"] != m[1]["count"]:
+                    bad_count.setdefault(sname, "a %s resource has descriptor count %s for HLSL and %s for MSL" % (what, h[1]["count"], m[1]["count"]))
+                for k in ("group", "slot", "bindless"):
+                    if h[1][k] != m[1][k]:
+                        bad_other = bad_other or "a %s resource: %s is %s for HLSL and %s for MSL" % (what, k, h[1][k], m[1][k])
+    for tgt in sorted(abs_):
+        chk.ob("C18.bindings/name/" + tgt, not bad_name[tgt], bad_name[tgt] or "every binding is reported under its source name", where(abs_[tgt]), sample={"target": tgt, "cases": n})
+    for oname in sorted(objs):
+        chk.ob("C18.bindings/kind/" + oname, oname not in bad_kind, bad_kind.get(oname) or "same descriptor kind on every target for every shape", "hlsl / msl analyse_bindings",
+               sample={"object": oname})
+    for sname in shapes:
+        chk.ob("C18.bindings/count/" + sname, sname not in bad_count, bad_count.get(sname) or "same descriptor count on every target for every object type", "hlsl / msl analyse_bindings",
+               sample={"shape": sname})
+    chk.ob("C18.bindings/slot-and-flags", not bad_other, bad_other or "group, slot and bindless flag are carried over alike", "hlsl / msl analyse_bindings")
+    chk.floor("C18.floor/binding-cases", n, 200, "resource declarations evaluated on both exporters")
+    return True
 
 
 def rule_peel(chk):
